@@ -129,7 +129,10 @@ pub fn produce_all(w: &mut World, actor: &str, psbt: &Psbt, i: usize) -> (Vec<Pr
     let mut out = vec![];
     let mut ok = [false; 4];
     let env = w.env.clone();
-    let sat = WorldSat::from_psbt(&env.uni, &env.by_expr, psbt, i);
+    let mut sat = WorldSat::from_psbt(&env.uni, &env.by_expr, psbt, i);
+    if w.mon.corruption {
+        crate::wallet::drop_invalid_sigs(&env, &psbt.unsigned_tx, i, &mut sat);
+    }
     let r = guard(w, "get_satisfaction", actor, |_| desc.get_satisfaction(&sat));
     if let Some(Ok((wit, ss))) = r {
         ok[0] = true;
@@ -397,6 +400,18 @@ fn check_final_valid(w: &mut World, actor: &str, p: &Psbt, i: usize, how: &str) 
             raise_class(w, "C14", "I1", cls, format!("{} finalised input {} with an invalid spend ({:?}) [corruption cfg] desc={}", how, i, e, w.env.inputs[i].spec.text), actor);
         }
         return;
+    }
+    w.stats.oracle_calls += 1;
+    {
+        let skel = skeleton_hash(&w.env.inputs[i].spec.text);
+        let mut d = fnv(ss.as_bytes());
+        for x in &wit {
+            d = mix(&[d, fnv(x)]);
+        }
+        w.stats.cases.insert(mix(&[skel, fnv(how.as_bytes())]));
+        if matches!(w.env.inputs[i].kind, OutKind::Wsh | OutKind::ShWsh | OutKind::ShMs | OutKind::TrScript) {
+            w.stats.nontrivial_cases.insert(mix(&[skel, fnv(how.as_bytes()), d]));
+        }
     }
     match exec_spend(w, &p.unsigned_tx, i, &wit, &ss, Flags::STANDARD) {
         Ok(_) => w.stats.probe("final_valid"),
